@@ -44,7 +44,7 @@ def run(ctx):
                 meta.append(dict(kind="plain", len=ln, ms=ms))
                 if j < (2 if quick else 4):
                     # binding / tampering catalogue on this signature
-                    ops += ["verify_msg %d %d" % (max(ln, 1), ms + 1), "verify_msg %d %d" % (ln + 1, ms), "verify_pk2"]
+                    ops += ["verify_flip", "verify_msg %d %d" % (ln + 1, ms), "verify_pk2"]
                     cat = TAMPER if (j == 0 or not quick) else [TAMPER[rng.below(len(TAMPER))] for _ in range(4)]
                     for (fld, d) in cat:
                         ops += ["tamper %s %d" % (fld, d), "verify", "restore"]
@@ -113,6 +113,9 @@ def run(ctx):
                 cur["enc"] = fl[1:]
             elif ln.startswith("verify") and cur and cur["ret"] == 1:
                 if ln.startswith("verify skipped"):
+                    continue
+                if ln.startswith("verify_flip skipped"):
+                    ci += 1
                     continue
                 val = int(ln.split()[-1])
                 Mv = mats_v[vi] if vi < len(mats_v) else None
